@@ -41,7 +41,11 @@ type c20Witness struct {
 
 func counterFunc(prefix string) app.Func {
 	return func(e *app.Env, sym string, in []byte, l string) (resource.Result, error) {
-		return resource.Result{Content: fmt.Sprintf("%s%d", prefix, e.Counts[sym]%10)}, nil
+		k := e.Counts[sym]
+		if k > 3 {
+			k = 3 // saturating, so that applications with counters have finite state graphs
+		}
+		return resource.Result{Content: fmt.Sprintf("%s%d", prefix, k)}, nil
 	}
 }
 
